@@ -360,3 +360,22 @@ def _conform_kind(scratch, module, trace_files, kind, flags, consts_for, name, t
             stuck[x] = dict(kind=kind, line=nxt)
     return dict(total=total, accepted=accepted, rejected=rejected, states=states, stuck=stuck,
                 accepted_runs=[x for x in runs if x in acc])
+
+
+def run_apalache(scratch, module, inv, length=0, timeout=300):
+    """Apalache (symbolic, unbounded integers) on spec/<module>.tla: does the
+    invariant hold in every initial state (length 0) / up to `length` steps?
+    Returns "holds", "violated" or raises Infra."""
+    d = scratch.sub("apa-%s-%s" % (module, inv))
+    shutil.copy(os.path.join(VERIF, "spec", module + ".tla"), d)
+    cmd = ["apalache-mc", "check", "--init=Init", "--next=Next", "--inv=" + inv, "--length=%d" % length,
+           "--out-dir=" + os.path.join(d, "out"), module + ".tla"]
+    try:
+        p = subprocess.run(cmd, cwd=d, stdout=subprocess.PIPE, stderr=subprocess.STDOUT, text=True, timeout=timeout)
+    except subprocess.TimeoutExpired:
+        raise Infra("apalache timed out on %s!%s" % (module, inv))
+    if "The outcome is: NoError" in p.stdout:
+        return "holds"
+    if "The outcome is: Error" in p.stdout and "invariant" in p.stdout:
+        return "violated"
+    raise Infra("apalache failed on %s!%s:\n%s" % (module, inv, p.stdout[-2000:]))
